@@ -96,13 +96,19 @@ use std::{
 };
 use std::cell::Cell;
 use std::collections::{HashMap, HashSet};
+#[cfg(not(feature = "gohla_pie_verif"))]
 use std::collections::hash_map::RandomState;
+#[cfg(feature = "gohla_pie_verif")]
+use crate::verif::SeededState as RandomState;
 use std::hash::BuildHasher;
 
 use hashlink::LinkedHashSet;
 use slotmap::{DefaultKey, SlotMap};
 
 type TopoOrder = u32;
+
+#[cfg(feature = "gohla_pie_verif")]
+pub mod verif;
 
 
 /// Data structure for maintaining a directed-acyclic graph (DAG) with topological ordering, maintained in an
